@@ -32,8 +32,12 @@ def parent_op(t, path):
     return cur[0]
 
 
+SPELL = {"and": ("U", "u", "∧"), "or": ("O", "o", "∨"), "xor": ("X", "x", "⊻")}
+LEVEL = {"or": 0, "xor": 1, "and": 2, "then": 3, "L": 4}
+
+
 def bracketed(t, rng):
-    """string with redundant brackets around random sub-expressions"""
+    """string with redundant brackets around random sub-expressions; every operator in a spelling of its own (letter in either case / symbol)"""
     if t[0] == "L":
         s = f"[{t[1]}]"
     else:
@@ -42,10 +46,24 @@ def bracketed(t, rng):
             a = f"({a})"
         if t[2][0] != "L":
             b = f"({b})"
-        s = f"{a}{b}" if t[0] == "then" else f"{a} {exprs.SYM[t[0]]} {b}"
+        s = f"{a}{b}" if t[0] == "then" else f"{a} {rng.choice(SPELL[t[0]])} {b}"
     if rng.random() < 0.4:
         s = f"({s})"
     return s
+
+
+def minimal(t, rng):
+    """the expression with ONLY the brackets the documented precedence needs (an operand is bracketed iff it binds looser than, or -- to keep the
+    tree -- as loose as, its parent), operators in mixed spellings: the redundant brackets of the fully bracketed form are the ones left out"""
+    if t[0] == "L":
+        return f"[{t[1]}]"
+    out = []
+    for side, c in ((1, t[1]), (2, t[2])):
+        x = minimal(c, rng)
+        if LEVEL[c[0]] < LEVEL[t[0]] or (LEVEL[c[0]] == LEVEL[t[0]] and c[0] != "L"):
+            x = f"({x})"
+        out.append(x)
+    return f"{out[0]}{out[1]}" if t[0] == "then" else f"{out[0]} {rng.choice(SPELL[t[0]])} {out[1]}"
 
 
 def run(ctx):
@@ -90,19 +108,19 @@ def run(ctx):
                     ctx.fail(f"{name}|{kind_}|{exprs.show(t2)}|{sorted(rho.items())}", {"expression": name, "transformed": exprs.show(t2), "rc": rho},
                              f"{want}", f"{got}", f"oracle: {kind_} changed the requirement outcome / validity")
                     break
-        # redundant brackets (through the parser)
-        s2 = bracketed(t, ctx.rng)
-        try:
-            t2 = exprs.from_lark(parse_condition_expression_to_tree(s2))
-        except BaseException as e:  # pylint: disable=broad-except
-            t2 = None
-            ctx.fail(f"{name}|brackets-parse", {"expression": name, "transformed": s2}, "parses", repr(e), "oracle: redundant brackets")
-        if t2 is not None:
-            n_rel += 1
-            for rho in rhos[:3]:
-                n_eval += 1
-                if evalcorr.eval_node_outcome(t2, rho) != base[tuple(rho.items())]:
-                    ctx.fail(f"{name}|brackets|{s2}", {"expression": name, "transformed": s2, "rc": rho}, str(base[tuple(rho.items())]), "differs", "oracle: redundant brackets changed the outcome")
+        # redundant brackets (through the parser): more of them, and only those the precedence needs
+        for s2 in (bracketed(t, ctx.rng), minimal(t, ctx.rng)):
+            try:
+                t2 = exprs.from_lark(parse_condition_expression_to_tree(s2))
+            except BaseException as e:  # pylint: disable=broad-except
+                t2 = None
+                ctx.fail(f"{name}|brackets-parse", {"expression": name, "transformed": s2}, "parses", repr(e), "oracle: redundant brackets")
+            if t2 is not None:
+                n_rel += 1
+                for rho in rhos[:3]:
+                    n_eval += 1
+                    if evalcorr.eval_node_outcome(t2, rho) != base[tuple(rho.items())]:
+                        ctx.fail(f"{name}|brackets|{s2}", {"expression": name, "transformed": s2, "rc": rho}, str(base[tuple(rho.items())]), "differs", "oracle: redundant brackets changed the outcome")
         # definite outcomes are stable under every resolution of UNKNOWN
         for rho in rhos:
             unk = [k for k, v in rho.items() if v == "UNKNOWN"]
